@@ -13,14 +13,14 @@ import (
 
 // choice is one stimulus of the harness; a scenario is a list of them and replays exactly
 type choice struct {
-	C  string `json:"c"`            // acq | rel | cln | eff | ret | adv | ext
+	C  string `json:"c"`            // acq | rel | cln | eff | ret | adv | advx (advance while storage calls are held) | ext
 	P  int    `json:"p,omitempty"`  // participant (acq rel cln)
 	K  uint32 `json:"k,omitempty"`  // key (acq rel ext)
 	V  int    `json:"v,omitempty"`  // value (acq)
 	D  int    `json:"d,omitempty"`  // leadership duration, seconds (acq)
 	T  string `json:"t,omitempty"`  // thread: a<participant> | g<context> (eff ret)
 	O  string `json:"o,omitempty"`  // outcome of the storage call: ok | errb | erra | false (eff)
-	Ns int64  `json:"ns,omitempty"` // clock advance, clipped to the next armed timer; 0 = to the next timer (adv)
+	Ns int64  `json:"ns,omitempty"` // clock advance, clipped to the next armed timer; 0 = to the next timer (adv, advx)
 }
 
 type scenario struct {
@@ -72,6 +72,7 @@ type exec struct {
 	prev    map[uint32]string // storage view after the previous batch
 	vals    map[int]map[string]bool
 	extKeys map[uint32]bool
+	slow    bool // the clock was advanced while a storage call was held (finding U3)
 	unexpl  bool // a violation was observed that neither known finding explains
 }
 
@@ -343,6 +344,8 @@ func (e *exec) enabled(c choice) bool {
 		return pc != nil && pc.done
 	case "adv":
 		return e.allIdle() && c.Ns >= 0
+	case "advx":
+		return c.Ns >= 0 && !e.allIdle()
 	case "ext":
 		return true
 	}
@@ -350,7 +353,7 @@ func (e *exec) enabled(c choice) bool {
 }
 
 // watchdog: real time the harness waits for a thread it has just stimulated
-const patience = 3 * time.Second
+const patience = 2 * time.Second
 
 func (e *exec) stuck(what string) {
 	if e.err == nil {
@@ -604,6 +607,21 @@ func (e *exec) apply(c choice) bool {
 			break
 		}
 		e.emit(fmt.Sprintf("Advance %d", dt), "ONone")
+	case "advx":
+		dt := c.Ns
+		if next, ok := e.r.clock.NextTimer(); ok && (dt == 0 || int64(next) < dt) {
+			dt = int64(next)
+		}
+		if dt <= 0 {
+			return false
+		}
+		e.r.clock.Advance(nsDur(dt))
+		if !e.settle() {
+			break
+		}
+		e.emit(fmt.Sprintf("AdvanceInCall %d", dt), "ONone")
+		e.slow = true
+		e.tags["U3:clock-advanced-during-storage-call"] = true
 	case "ext":
 		e.r.extDelete(c.K)
 		e.emit(fmt.Sprintf("ExtDelete %d", c.K), "ONone")
@@ -703,9 +721,11 @@ func (e *exec) judge(now int64) {
 		}
 		if 2*(now-a.last) > int64(a.d)*1e9 && a.d > 0 {
 			e.tags["bound-exceeded"] = true
-			if leaked(a) {
+			switch {
+			case e.slow:
+			case leaked(a):
 				e.tags["LEAK:context-live-after-its-goroutine-returned"] = true
-			} else {
+			default:
 				e.unexpl = true
 			}
 		}
@@ -713,6 +733,7 @@ func (e *exec) judge(now int64) {
 			if b.ctx.Err() == nil && a.k == b.k && a.p != b.p && !e.extKeys[a.k] {
 				e.tags["two-live-leaders"] = true
 				switch {
+				case e.slow:
 				case a.cadOk || b.cadOk:
 					e.tags["F17:acquired-while-releaser-context-live"] = true
 				case leaked(a) || leaked(b):
